@@ -166,6 +166,7 @@ func c06judge(c c06case) (kind, detail string) {
 	}
 	k := keys[c.Key][0]
 	b := c06build(c.Forest, c.Rot)
+
 	var env map[string]string
 	if c.PipeEnv != nil {
 		env = map[string]string{}
@@ -176,6 +177,14 @@ func c06judge(c c06case) (kind, detail string) {
 	beforeSteps := snap.Deep(&b.steps)
 	beforeJSON, _ := json.Marshal(b.steps)
 	beforeEnv := snap.Deep(&env)
+	if c.Rot%2 == 1 {
+		// the steps were signed before (e.g. copied from signed steps): all of them carry the SAME stale signature object
+		// (attached after the "before" snapshots: signatures are what signing may change)
+		stale := &pipeline.Signature{Algorithm: "EdDSA", SignedFields: []string{"command"}, Value: "stale..value"}
+		for _, cs := range b.commands {
+			cs.Signature = stale
+		}
+	}
 	var serr error
 	if pan := report.Catch(func() { serr = signature.SignSteps(sigCtx, b.steps, k.Sign, "repo-url", signature.WithEnv(env)) }); pan != "" {
 		return "panic", pan
@@ -287,7 +296,7 @@ func init() {
 	register(&report.Check{
 		ID: "C06",
 		Rule: "every ordered forest of <=6 (quick) / <=8 (thorough) nodes over {command, other known step (wait/input/trigger cycled), unknown, group}, groups nested to depth 4, " +
-			"command steps (every third and fourth with CRLF line ends / leading white space, non-ASCII text and trailing newlines in the command) carrying step env variants (none, {A}, {C}, {A,C}, empty, {A: \"\"}, {B: \"\", C: \"\"}; rotated), plugins or a matrix; x pipeline env in {{A,B}, nil, {}, {A}, {B}, {A: \"\", B}} and all rotations for forests of <=4 nodes; " +
+			"command steps (every third and fourth with CRLF line ends / leading white space, non-ASCII text and trailing newlines in the command) (for odd rotations all sharing one stale signature object beforehand) carrying step env variants (none, {A}, {C}, {A,C}, empty, {A: \"\"}, {B: \"\", C: \"\"}; rotated), plugins or a matrix; x pipeline env in {{A,B}, nil, {}, {A}, {B}, {A: \"\", B}} and all rotations for forests of <=4 nodes; " +
 			"EdDSA everywhere, ES512 / PS512 / ES256 crypto.Signer on forests of <=3 nodes. Oracle: unknown anywhere => error; else every command step at every depth is signed, verifies, names the key's " +
 			"algorithm, signed fields == sorted(5 mandatory + env::N for pipeline vars not shadowed by the step); deep snapshot and JSON of the steps minus signatures unchanged; caller's env map snapshot unchanged. " +
 			"Non-trivial = forest has a command step and a group.",
